@@ -2,9 +2,12 @@
    Executable definitions only (no proofs):
      - a model of the part of git that src/_griffe/git.py drives (worktree add -b / remove [--force] / prune,
        branch -D) over an abstract repository state,
-     - the fault alphabet (a git call fails or raises, before or after taking effect),
-     - tmp_worktree (TemporaryDirectory + try/finally), load_git, check as state transformers,
-     - _normalize (ASCII), Breakage._location, the lines collection,
+     - the fault alphabet (a git call fails or raises, before or after taking effect, or is torn: interrupted between
+       its two halves; the removal of the TemporaryDirectory raises at once / in the middle / on return),
+     - tmp_worktree (TemporaryDirectory + try/finally; [guard] selects the proposed repair of finding F2: existence
+       test of the temporary branch, then `worktree add` inside the try block), load_git, check as state transformers,
+     - _normalize (ASCII), Breakage._location, the lines collection (with a file system, so that "does not depend on
+       the removed checkout" can be stated),
      - s-expression codecs and run_C20.
    The model of git is modelled, not verified: it is tied to real git by the oracle correspondence. *)
 From Coq Require Import List ZArith String Ascii Bool Arith.
@@ -73,19 +76,39 @@ Definition drop_tmp (p : path) (l : list path) := filter (fun x => negb (Nat.eqb
 Definition drop_branch (b : string) (l : list (string * commit)) := filter (fun x => negb (String.eqb (fst x) b)) l.
 Definition add_tmp (p : path) (l : list path) := if existsb (Nat.eqb p) l then l else p :: l.
 
-(* ------------------------------------------------------------------ git steps: None = git refuses, nothing changes *)
+(* ------------------------------------------------------------------ git steps *)
+
+(* A step of git answers (state after, accepted?). `worktree remove`, `branch -D` and `worktree lock` refuse without
+   effect (option: None = refused, nothing changed; [lift]); `worktree add -b` does not: it runs `git branch b ref`
+   first and only then looks at the path, so a refusal because of the path leaves the new branch behind
+   (builtin/worktree.c:add). *)
+Definition lift (step : repo -> option repo) (s : repo) : repo * bool :=
+  match step s with Some s' => (s', true) | None => (s, false) end.
+
+Definition with_branch (b : string) (c : commit) (s : repo) : repo := set_branches s ((b, c) :: branches s).
 
 (* git worktree add -b b <tmp p>/<normref> ref   (creates leading directories).
-   Modelled for an unoccupied path only, which is the only way tmp_worktree calls it (a directory fresh from
-   mkdtemp) and a hypothesis of every theorem ([fresh]): on an occupied path real git 2.39 creates the branch
-   first and fails afterwards, which this definition does not reproduce (it refuses without effect). *)
-Definition wt_add (b : string) (p : path) (r : string) (s : repo) : option repo :=
+   1. `git branch b ref`: refused without effect when ref does not resolve (unknown, ambiguous) or b exists;
+   2. the path: refused -- with the branch of step 1 left behind -- when it is a registered worktree (present,
+      missing or locked) or an existing non-empty directory / file;
+   3. registration + checkout.
+   Modelled for a path whose parent directory exists (tmp_worktree calls mkdtemp first): with a missing parent,
+   git 2.39 does not recognise a missing registered worktree at that path and registers a second one. *)
+Definition wt_add (b : string) (p : path) (r : string) (s : repo) : repo * bool :=
   match resolve s r with
-  | None => None
+  | None => (s, false)
   | Some c =>
-      if has_branch b s || registered p s || dir_exists p s then None
-      else Some (mkRepo (head_branch s) (head_commit s) (main_status s) ((b, c) :: branches s) (names s)
-                        (mkReg p (Some b) false :: regs s) ((p, false) :: dirs s) (add_tmp p (tmps s)))
+      if has_branch b s then (s, false)
+      else if registered p s || dir_exists p s then (with_branch b c s, false)
+      else (mkRepo (head_branch s) (head_commit s) (main_status s) ((b, c) :: branches s) (names s)
+                   (mkReg p (Some b) false :: regs s) ((p, false) :: dirs s) (add_tmp p (tmps s)), true)
+  end.
+
+(* `worktree add` interrupted between step 1 and step 3: the branch exists, nothing else *)
+Definition wt_add_torn (b : string) (p : path) (r : string) (s : repo) : repo :=
+  match resolve s r with
+  | None => s
+  | Some c => if has_branch b s then s else with_branch b c s
   end.
 
 (* git worktree remove [--force] <path>: a missing directory is tolerated, a locked worktree is not *)
@@ -100,6 +123,11 @@ Definition wt_remove (force : bool) (p : path) (s : repo) : option repo :=
            | None => Some (set_regs s (drop_reg p (regs s)))
            end
   end.
+
+(* `worktree remove` interrupted between its two halves (builtin/worktree.c:remove_worktree deletes the working
+   directory first, the registration second): the directory is gone, the registration stays (and is prunable) *)
+Definition wt_remove_torn (force : bool) (p : path) (s : repo) : repo :=
+  if is_some (wt_remove force p s) then set_dirs s (drop_dir p (dirs s)) else s.
 
 (* git worktree prune: drops EVERY unlocked registration whose directory is gone — also the user's own.
    tmp_worktree no longer calls it (repaired finding F3); it stays in the git model for the oracle correspondence
@@ -124,23 +152,41 @@ Definition rmtree (p : path) (s : repo) : repo := set_tmps (set_dirs s (drop_dir
 Definition touch (p : path) (s : repo) : repo :=
   set_dirs s (map (fun x => if Nat.eqb (fst x) p then (fst x, true) else x) (dirs s)).
 
+(* somebody else puts a non-empty directory where a checkout would go (used by the oracle correspondence only) *)
+Definition occupy (p : path) (s : repo) : repo :=
+  if dir_exists p s then s else set_tmps (set_dirs s ((p, false) :: dirs s)) (add_tmp p (tmps s)).
+
 (* ------------------------------------------------------------------ faults *)
 
 Definition exn := string.
-Inductive fault := NoFault | FailBefore | FailAfter | RaiseBefore (e : exn) | RaiseAfter (e : exn).
+(* what can go wrong with one `subprocess.run(["git", ...])` as seen from _griffe.git:
+   non-zero exit / exception, before or after the command took effect, or [Torn]: the command was interrupted between
+   its two halves (None: git died, non-zero exit; Some e: the exception e arrived in Python, which kills git) *)
+Inductive fault := NoFault | FailBefore | FailAfter | RaiseBefore (e : exn) | RaiseAfter (e : exn) | Torn (oe : option exn).
 Inductive signal := Rc0 | RcFail | Exn (e : exn).
 
-Definition apply_step (step : repo -> option repo) (s : repo) : repo :=
-  match step s with Some s' => s' | None => s end.
+(* what can go wrong when the TemporaryDirectory is removed on exit of the `with` block (shutil.rmtree):
+   it raises at once (nothing removed), in the middle (the checkout is gone, the directory itself is not), or on return *)
+Inductive rmfault := RmOk | RmRaiseBefore (e : exn) | RmTorn (e : exn) | RmRaiseAfter (e : exn).
 
 (* one subprocess.run of git as seen from _griffe.git *)
-Definition git_call (f : fault) (step : repo -> option repo) (s : repo) : repo * signal :=
+Definition git_call (f : fault) (step : repo -> repo * bool) (torn : repo -> repo) (s : repo) : repo * signal :=
   match f with
-  | NoFault => match step s with Some s' => (s', Rc0) | None => (s, RcFail) end
+  | NoFault => let (s', ok) := step s in (s', if ok then Rc0 else RcFail)
   | FailBefore => (s, RcFail)
-  | FailAfter => (apply_step step s, RcFail)
+  | FailAfter => (fst (step s), RcFail)
   | RaiseBefore e => (s, Exn e)
-  | RaiseAfter e => (apply_step step s, Exn e)
+  | RaiseAfter e => (fst (step s), Exn e)
+  | Torn None => (torn s, RcFail)
+  | Torn (Some e) => (torn s, Exn e)
+  end.
+
+(* a git call that only reads *)
+Definition ro_call (f : fault) (ok : bool) : signal :=
+  match f with
+  | NoFault => if ok then Rc0 else RcFail
+  | FailBefore | FailAfter | Torn None => RcFail
+  | RaiseBefore e | RaiseAfter e | Torn (Some e) => Exn e
   end.
 
 Inductive result := Returned (v : nat) | Raised (e : exn).
@@ -148,12 +194,14 @@ Inductive result := Returned (v : nat) | Raised (e : exn).
 Record faults := mkFaults {
   f_assert : fault;      (* git rev-parse --is-inside-work-tree *)
   f_mkdtemp : bool;      (* TemporaryDirectory() raises OSError *)
+  f_list : fault;        (* git branch --list griffe-<ref>: only in the repaired variant [guard = true] *)
   f_add : fault;
   f_remove : fault;
-  f_branchD : fault
+  f_branchD : fault;
+  f_rmtree : rmfault     (* removal of the TemporaryDirectory *)
 }.
 
-Definition no_faults := mkFaults NoFault false NoFault NoFault NoFault.
+Definition no_faults := mkFaults NoFault false NoFault NoFault NoFault NoFault RmOk.
 
 (* ------------------------------------------------------------------ _normalize (ASCII) *)
 
@@ -192,28 +240,51 @@ Definition tmp_branch (ref : string) : string := "griffe-" ++ checkout_name ref.
 
 (* the try/finally block: each call has check=False, so only a raised exception stops the sequence *)
 Definition cleanup (force : bool) (F : faults) (b : string) (p : path) (s : repo) : repo * option exn :=
-  let (s1, g1) := git_call (f_remove F) (wt_remove force p) s in
+  let (s1, g1) := git_call (f_remove F) (lift (wt_remove force p)) (wt_remove_torn force p) s in
   match g1 with
   | Exn e => (s1, Some e)
   | _ =>
-    let (s3, g3) := git_call (f_branchD F) (branch_D b) s1 in
+    let (s3, g3) := git_call (f_branchD F) (lift (branch_D b)) (fun x => x) s1 in
     match g3 with
     | Exn e => (s3, Some e)
     | _ => (s3, None)
     end
   end.
 
+(* leaving `with TemporaryDirectory(...)`: the directory is removed; an exception raised by the removal replaces
+   whatever the block was ending with *)
+Definition exit_td (F : faults) (p : path) (s : repo) (r : result) : repo * result :=
+  match f_rmtree F with
+  | RmOk => (rmtree p s, r)
+  | RmRaiseBefore e => (s, Raised e)
+  | RmTorn e => (set_dirs s (drop_dir p (dirs s)), Raised e)
+  | RmRaiseAfter e => (rmtree p s, Raised e)
+  end.
+
 (* the `try: yield / finally: cleanup` block followed by the exit of `with TemporaryDirectory` *)
 Definition finish (force : bool) (F : faults) (b : string) (p : path) (body : repo -> repo * result) (s2 : repo) : repo * result :=
   let (s3, r) := body s2 in
   let (s4, ce) := cleanup force F b p s3 in
-  (rmtree p s4, match ce with Some e => Raised e | None => r end).   (* an exception in finally replaces the body's *)
+  exit_td F p s4 (match ce with Some e => Raised e | None => r end).   (* an exception in finally replaces the body's *)
+
+(* `worktree add` as the first statement of the try block (repaired variant) *)
+Definition add_then (F : faults) (b : string) (p : path) (ref : string) (body : repo -> repo * result) (x : repo) : repo * result :=
+  match git_call (f_add F) (wt_add b p ref) (wt_add_torn b p ref) x with
+  | (s2, Exn e) => (s2, Raised e)
+  | (s2, RcFail) => (s2, Raised "RuntimeError")
+  | (s2, Rc0) => body s2
+  end.
 
 (* [force] is the --force flag of `worktree remove` (true in the code as it is now);
-   [isrepo] is what `git rev-parse --is-inside-work-tree` answers for the directory *)
-Definition tmp_worktree (force isrepo : bool) (F : faults) (p : path) (ref : string)
+   [isrepo] is what `git rev-parse --is-inside-work-tree` answers for the directory;
+   [guard] = false is the code as it is: `worktree add` sits before the try block.
+   [guard] = true is the proposed repair of finding F2: `git branch --list griffe-<ref>` first (any answer but
+   "no such branch" ends the call before anything was created), then `worktree add` INSIDE the try block, so that the
+   finally block also runs when the add fails, is interrupted or is torn; thanks to the test, the `branch -D` of the
+   finally block can only ever delete a branch that this very call created. *)
+Definition tmp_worktree (guard force isrepo : bool) (F : faults) (p : path) (ref : string)
            (body : repo -> repo * result) (s : repo) : repo * result :=
-  match git_call (f_assert F) (fun x => if isrepo then Some x else None) s with
+  match git_call (f_assert F) (fun x => (x, isrepo)) (fun x => x) s with
   | (s0, Exn e) => (s0, Raised e)
   | (s0, RcFail) => (s0, Raised "OSError")
   | (s0, Rc0) =>
@@ -221,11 +292,20 @@ Definition tmp_worktree (force isrepo : bool) (F : faults) (p : path) (ref : str
     else
       let s1 := mkdtemp p s0 in
       let b := tmp_branch ref in
-      match git_call (f_add F) (wt_add b p ref) s1 with
-      | (s2, Exn e) => (rmtree p s2, Raised e)
-      | (s2, RcFail) => (rmtree p s2, Raised "RuntimeError")
-      | (s2, Rc0) => finish force F b p body s2
-      end
+      if guard then
+        match ro_call (f_list F) true with
+        | Exn e => exit_td F p s1 (Raised e)
+        | RcFail => exit_td F p s1 (Raised "RuntimeError")
+        | Rc0 =>
+          if has_branch b s1 then exit_td F p s1 (Raised "RuntimeError")
+          else finish force F b p (add_then F b p ref body) s1
+        end
+      else
+        match git_call (f_add F) (wt_add b p ref) (wt_add_torn b p ref) s1 with
+        | (s2, Exn e) => exit_td F p s2 (Raised e)
+        | (s2, RcFail) => exit_td F p s2 (Raised "RuntimeError")
+        | (s2, Rc0) => finish force F b p body s2
+        end
   end.
 
 (* what the loader and the extension hooks can do to the checkout, stage by stage *)
@@ -261,18 +341,11 @@ Definition git_body (ref : string) (tree : list (commit * content)) (evs : list 
   | None => (s2, Raised "unreachable")
   end.
 
-Definition load_git (force isrepo : bool) (F : faults) (p : path) (ref : string) (tree : list (commit * content))
+Definition load_git (guard force isrepo : bool) (F : faults) (p : path) (ref : string) (tree : list (commit * content))
            (evs : list event) (s : repo) : repo * result :=
-  tmp_worktree force isrepo F p ref (git_body ref tree evs p) s.
+  tmp_worktree guard force isrepo F p ref (git_body ref tree evs p) s.
 
 (* ------------------------------------------------------------------ check *)
-
-Definition ro_call (f : fault) (ok : bool) : signal :=
-  match f with
-  | NoFault => if ok then Rc0 else RcFail
-  | FailBefore | FailAfter => RcFail
-  | RaiseBefore e | RaiseAfter e => Exn e
-  end.
 
 Record check_args := mkCheck {
   c_against : option string;      (* --against; None: latest tag *)
@@ -300,9 +373,9 @@ Definition against_of (a : check_args) : string + result :=
   end.
 
 (* the new side: load_git at --base-ref, or a plain load of the main working tree (which writes nothing) *)
-Definition load_new (force isrepo : bool) (a : check_args) (tree : list (commit * content)) (s1 : repo) : repo * result :=
+Definition load_new (guard force isrepo : bool) (a : check_args) (tree : list (commit * content)) (s1 : repo) : repo * result :=
   match c_base a with
-  | Some r => load_git force isrepo (c_F2 a) (c_p2 a) r tree (c_evs2 a) s1
+  | Some r => load_git guard force isrepo (c_F2 a) (c_p2 a) r tree (c_evs2 a) s1
   | None => match c_work a with
             | CAbsent => (s1, Raised "ImportError")
             | CSyntaxError => (s1, Raised "LoadingError")
@@ -313,7 +386,7 @@ Definition load_new (force isrepo : bool) (a : check_args) (tree : list (commit 
             end
   end.
 
-Definition check (force isrepo : bool) (a : check_args) (tree : list (commit * content)) (breaking : list (nat * nat))
+Definition check (guard force isrepo : bool) (a : check_args) (tree : list (commit * content)) (breaking : list (nat * nat))
            (s : repo) : repo * result :=
   match against_of a with
   | inr r => (s, r)
@@ -324,10 +397,10 @@ Definition check (force isrepo : bool) (a : check_args) (tree : list (commit * c
     | Rc0 =>
       if c_ext_fails a then (s, Returned 1)
       else
-        match load_git force isrepo (c_F1 a) (c_p1 a) against tree (c_evs1 a) s with
+        match load_git guard force isrepo (c_F1 a) (c_p1 a) against tree (c_evs1 a) s with
         | (s1, Raised e) => (s1, Raised e)
         | (s1, Returned vo) =>
-          match load_new force isrepo a tree s1 with
+          match load_new guard force isrepo a tree s1 with
           | (s2, Raised e) => (s2, Raised e)
           | (s2, Returned vn) => (s2, Returned (if breaking_pair breaking vo vn then 1 else 0))
           end
@@ -358,10 +431,17 @@ Definition cleanup_benign (F : faults) : bool :=
 
 Definition reaches_add (isrepo : bool) (F : faults) : bool := is_nofault (f_assert F) && isrepo && negb (f_mkdtemp F).
 
-(* KnownGap F2: `worktree add` takes effect but reports failure (failing post-checkout hook) or is interrupted on return *)
+(* the removal of the TemporaryDirectory does its job *)
+Definition rm_effective (F : faults) : bool := match f_rmtree F with RmOk | RmRaiseAfter _ => true | _ => false end.
+
+(* excluded by hypothesis: the removal of the temporary directory itself fails *)
+Definition excluded_rmtree_fault (isrepo : bool) (F : faults) : bool := reaches_add isrepo F && negb (rm_effective F).
+
+(* KnownGap F2: `worktree add` leaves an effect but does not report success: it takes effect and exits non-zero (failing
+   post-checkout hook), is interrupted on return, or is torn (interrupted after `git branch`, before the registration) *)
 Definition gap_add_after (isrepo : bool) (s : repo) (ref : string) (F : faults) : bool :=
   reaches_add isrepo F && add_possible s ref
-  && match f_add F with FailAfter | RaiseAfter _ => true | _ => false end.
+  && match f_add F with FailAfter | RaiseAfter _ | Torn _ => true | _ => false end.
 
 Definition reaches_cleanup (isrepo : bool) (s : repo) (ref : string) (F : faults) : bool :=
   reaches_add isrepo F && add_possible s ref && is_nofault (f_add F).
@@ -371,7 +451,39 @@ Definition excluded_cleanup_fault (isrepo : bool) (s : repo) (ref : string) (F :
   reaches_cleanup isrepo s ref F && negb (cleanup_benign F).
 
 Definition benign (isrepo : bool) (s : repo) (ref : string) (F : faults) : bool :=
-  negb (gap_add_after isrepo s ref F) && negb (excluded_cleanup_fault isrepo s ref F).
+  negb (gap_add_after isrepo s ref F) && negb (excluded_cleanup_fault isrepo s ref F) && negb (excluded_rmtree_fault isrepo F).
+
+(* ---- the repaired variant ([guard] = true): what the add call leaves behind decides what the cleanup has to do *)
+Inductive leftover := LNothing | LBranch | LFull.
+
+Definition add_leftover (f : fault) : leftover :=
+  match f with
+  | NoFault | FailAfter | RaiseAfter _ => LFull
+  | Torn _ => LBranch
+  | FailBefore | RaiseBefore _ => LNothing
+  end.
+
+(* `worktree remove` raises nothing (so that `branch -D` runs) *)
+Definition remove_quiet (F : faults) : bool :=
+  match f_remove F with RaiseBefore _ | RaiseAfter _ | Torn (Some _) => false | _ => true end.
+Definition branchD_effective (F : faults) : bool :=
+  match f_branchD F with NoFault | FailAfter | RaiseAfter _ => true | _ => false end.
+
+Definition cleanup_ok (l : leftover) (F : faults) : bool :=
+  match l with
+  | LNothing => true
+  | LBranch => remove_quiet F && branchD_effective F
+  | LFull => cleanup_benign F
+  end.
+
+(* the try block of the repaired variant is entered *)
+Definition reaches_try (isrepo : bool) (s : repo) (ref : string) (F : faults) : bool :=
+  reaches_add isrepo F && is_nofault (f_list F) && negb (has_branch (tmp_branch ref) s).
+
+(* no gap predicate: only faults of the cleanup calls themselves and of the directory removal are excluded *)
+Definition benign_guarded (isrepo : bool) (s : repo) (ref : string) (F : faults) : bool :=
+  negb (excluded_rmtree_fault isrepo F)
+  && (negb (reaches_try isrepo s ref F) || negb (is_some (resolve s ref)) || cleanup_ok (add_leftover (f_add F)) F).
 
 Definition effective_against (a : check_args) : option string :=
   match c_against a with Some r => Some r | None => c_latest a end.
@@ -383,6 +495,13 @@ Definition check_benign (isrepo : bool) (s : repo) (a : check_args) : bool :=
                && match c_base a with Some r => benign isrepo s r (c_F2 a) | None => true end
   end.
 
+Definition check_benign_guarded (isrepo : bool) (s : repo) (a : check_args) : bool :=
+  match effective_against a with
+  | None => true
+  | Some ag => benign_guarded isrepo s ag (c_F1 a)
+               && match c_base a with Some r => benign_guarded isrepo s r (c_F2 a) | None => true end
+  end.
+
 (* histories of operations *)
 Inductive op :=
   | OpLoad (isrepo : bool) (F : faults) (p : path) (ref : string) (evs : list event)
@@ -390,8 +509,8 @@ Inductive op :=
 
 Definition run_op (tree : list (commit * content)) (breaking : list (nat * nat)) (s : repo) (o : op) : repo :=
   match o with
-  | OpLoad isrepo F p ref evs => fst (load_git true isrepo F p ref tree evs s)
-  | OpCheck isrepo a => fst (check true isrepo a tree breaking s)
+  | OpLoad isrepo F p ref evs => fst (load_git false true isrepo F p ref tree evs s)
+  | OpCheck isrepo a => fst (check false true isrepo a tree breaking s)
   end.
 
 Definition op_ok (s : repo) (o : op) : bool :=
@@ -420,7 +539,14 @@ Definition checkout_parts (root : list string) (tmpname dirname : string) : list
 (* ------------------------------------------------------------------ lines collection *)
 
 Definition file := (list string * list string)%type.        (* path parts, lines *)
-Definition lines_collection := list (list string * list string).
+
+(* what the collection holds for a path: the lines themselves, or (NOT in the code as it is) a promise to read the
+   file when somebody asks *)
+Inductive entry := Stored (ls : list string) | Deferred.
+Definition lines_collection := list (list string * entry).
+
+(* the files that exist at the moment an object is asked for its lines *)
+Definition filesystem := list file.
 
 Fixpoint parts_eqb (a b : list string) : bool :=
   match a, b with
@@ -429,29 +555,37 @@ Fixpoint parts_eqb (a b : list string) : bool :=
   | _, _ => false
   end.
 
-Fixpoint lc_get (lc : lines_collection) (k : list string) : option (list string) :=
+Fixpoint lc_get {A} (lc : list (list string * A)) (k : list string) : option A :=
   match lc with
   | [] => None
   | (k', v) :: r => if parts_eqb k' k then Some v else lc_get r k
   end.
 
 Definition lc_set (lc : lines_collection) (k : list string) (v : list string) : lines_collection :=
-  (k, v) :: lc.
+  (k, Stored v) :: lc.
 
-(* the visitor stores each visited file under its absolute path: loader._visit_module *)
+(* both loader paths store each file they load under its absolute path, eagerly:
+   loader._visit_module (static analysis) and loader._inspect_module (dynamic analysis) *)
 Fixpoint visit_files (checkout : list string) (files : list file) (lc : lines_collection) : lines_collection :=
   match files with
   | [] => lc
   | (rel, ls) :: r => visit_files checkout r (lc_set lc (checkout ++ rel) ls)
   end.
 
-(* Object.lines: the collection only, never the file system; a missing key gives no lines *)
-Definition obj_lines (lc : lines_collection) (filepath : list string) : list string :=
-  match lc_get lc filepath with Some l => l | None => [] end.
+Definition all_stored (lc : lines_collection) : bool :=
+  forallb (fun kv => match snd kv with Stored _ => true | Deferred => false end) lc.
 
-(* Object.source: lines[lineno-1 : endlineno] *)
-Definition obj_source (lc : lines_collection) (filepath : list string) (lineno endlineno : nat) : list string :=
-  firstn (endlineno - (lineno - 1)) (skipn (lineno - 1) (obj_lines lc filepath)).
+(* Object.lines for a module: the collection; a missing key gives no lines *)
+Definition obj_lines (fs : filesystem) (lc : lines_collection) (filepath : list string) : list string :=
+  match lc_get lc filepath with
+  | Some (Stored l) => l
+  | Some Deferred => match lc_get fs filepath with Some l => l | None => [] end
+  | None => []
+  end.
+
+(* Object.lines / Object.source of a function, class or attribute: lines[lineno-1 : endlineno] *)
+Definition obj_source (fs : filesystem) (lc : lines_collection) (filepath : list string) (lineno endlineno : nat) : list string :=
+  firstn (endlineno - (lineno - 1)) (skipn (lineno - 1) (obj_lines fs lc filepath)).
 
 (* ------------------------------------------------------------------ codecs *)
 
@@ -491,14 +625,25 @@ Definition dec_fault (x : sexp) : option fault :=
   | SList [SStr "fail-after"] => Some FailAfter
   | SList [SStr "raise-before"; SStr e] => Some (RaiseBefore e)
   | SList [SStr "raise-after"; SStr e] => Some (RaiseAfter e)
+  | SList [SStr "torn"] => Some (Torn None)
+  | SList [SStr "torn"; SStr e] => Some (Torn (Some e))
+  | _ => None
+  end.
+
+Definition dec_rmfault (x : sexp) : option rmfault :=
+  match x with
+  | SList [SStr "ok"] => Some RmOk
+  | SList [SStr "raise-before"; SStr e] => Some (RmRaiseBefore e)
+  | SList [SStr "torn"; SStr e] => Some (RmTorn e)
+  | SList [SStr "raise-after"; SStr e] => Some (RmRaiseAfter e)
   | _ => None
   end.
 
 Definition dec_faults (x : sexp) : option faults :=
   match x with
-  | SList [a; m; d; r; b] =>
-      do a' <- dec_fault a; do m' <- as_bool m; do d' <- dec_fault d; do r' <- dec_fault r;
-      do b' <- dec_fault b; Some (mkFaults a' m' d' r' b')
+  | SList [a; m; l; d; r; b; t] =>
+      do a' <- dec_fault a; do m' <- as_bool m; do l' <- dec_fault l; do d' <- dec_fault d; do r' <- dec_fault r;
+      do b' <- dec_fault b; do t' <- dec_rmfault t; Some (mkFaults a' m' l' d' r' b' t')
   | _ => None
   end.
 
@@ -527,11 +672,18 @@ Definition enc_result (r : result) : sexp :=
 Definition classify (isrepo : bool) (s : repo) (ref : string) (F : faults) : string :=
   if gap_add_after isrepo s ref F then "gap-add-after"
   else if excluded_cleanup_fault isrepo s ref F then "excluded-cleanup-fault"
+  else if excluded_rmtree_fault isrepo F then "excluded-rmtree-fault"
   else "benign".
+
+Definition classify_guarded (isrepo : bool) (s : repo) (ref : string) (F : faults) : string :=
+  if benign_guarded isrepo s ref F then "benign"
+  else if excluded_rmtree_fault isrepo F then "excluded-rmtree-fault"
+  else "excluded-cleanup-fault".
 
 Inductive gstep :=
   | GMkdtemp (p : path) | GAdd (b : string) (p : path) (r : string) | GRemove (force : bool) (p : path)
-  | GPrune | GBranchD (b : string) | GRmtree (p : path) | GTouch (p : path) | GLock (p : path).
+  | GPrune | GBranchD (b : string) | GRmtree (p : path) | GTouch (p : path) | GLock (p : path)
+  | GOccupy (p : path) | GAddTorn (b : string) (p : path) (r : string) | GRemoveTorn (force : bool) (p : path).
 
 Definition dec_gstep (x : sexp) : option gstep :=
   match x with
@@ -543,21 +695,26 @@ Definition dec_gstep (x : sexp) : option gstep :=
   | SList [SStr "rmtree"; p] => do p' <- as_nat p; Some (GRmtree p')
   | SList [SStr "touch"; p] => do p' <- as_nat p; Some (GTouch p')
   | SList [SStr "lock"; p] => do p' <- as_nat p; Some (GLock p')
+  | SList [SStr "occupy"; p] => do p' <- as_nat p; Some (GOccupy p')
+  | SList [SStr "add-torn"; SStr b; p; SStr r] => do p' <- as_nat p; Some (GAddTorn b p' r)
+  | SList [SStr "remove-torn"; f; p] => do f' <- as_bool f; do p' <- as_nat p; Some (GRemoveTorn f' p')
   | _ => None
   end.
 
 (* returns (state, git accepted?) *)
 Definition run_gstep (g : gstep) (s : repo) : repo * bool :=
-  let opt o := match o with Some s' => (s', true) | None => (s, false) end in
   match g with
   | GMkdtemp p => (mkdtemp p s, true)
-  | GAdd b p r => opt (wt_add b p r s)
-  | GRemove f p => opt (wt_remove f p s)
+  | GAdd b p r => wt_add b p r s
+  | GRemove f p => lift (wt_remove f p) s
   | GPrune => (wt_prune s, true)
-  | GBranchD b => opt (branch_D b s)
+  | GBranchD b => lift (branch_D b) s
   | GRmtree p => (rmtree p s, true)
   | GTouch p => (touch p s, true)
-  | GLock p => opt (wt_lock p s)
+  | GLock p => lift (wt_lock p) s
+  | GOccupy p => (occupy p s, true)
+  | GAddTorn b p r => (wt_add_torn b p r s, false)
+  | GRemoveTorn f p => (wt_remove_torn f p s, false)
   end.
 
 Fixpoint run_gsteps (gs : list gstep) (s : repo) : list sexp :=
@@ -577,20 +734,24 @@ Definition dec_check (x : sexp) : option check_args :=
   | _ => None
   end.
 
+Definition dec_file (x : sexp) : option file :=
+  match x with SList [k; v] => do k' <- as_list_of as_str k; do v' <- as_list_of as_str v; Some (k', v') | _ => None end.
+
 Definition or_bad (o : option sexp) : sexp := match o with Some x => x | None => bad_input end.
 
 Definition run_C20 (x : sexp) : sexp :=
   match x with
-  | SList [SStr "load_git"; force; isrepo; st; F; p; SStr ref; tree; evs] =>
-      or_bad (do force' <- as_bool force; do isrepo' <- as_bool isrepo; do s <- dec_repo st; do F' <- dec_faults F;
-              do p' <- as_nat p; do tree' <- dec_tree tree; do evs' <- as_list_of dec_event evs;
-              let (s', r) := load_git force' isrepo' F' p' ref tree' evs' s in
-              Some (SList [enc_repo s'; enc_result r; SStr (classify isrepo' s ref F');
+  | SList [SStr "load_git"; guard; force; isrepo; st; F; p; SStr ref; tree; evs] =>
+      or_bad (do guard' <- as_bool guard; do force' <- as_bool force; do isrepo' <- as_bool isrepo; do s <- dec_repo st;
+              do F' <- dec_faults F; do p' <- as_nat p; do tree' <- dec_tree tree; do evs' <- as_list_of dec_event evs;
+              let (s', r) := load_git guard' force' isrepo' F' p' ref tree' evs' s in
+              Some (SList [enc_repo s'; enc_result r;
+                           SStr (if guard' then classify_guarded isrepo' s ref F' else classify isrepo' s ref F');
                            of_bool (wf s); of_bool (fresh p' s)]))
-  | SList [SStr "check"; force; isrepo; st; args; tree; breaking] =>
-      or_bad (do force' <- as_bool force; do isrepo' <- as_bool isrepo; do s <- dec_repo st; do a <- dec_check args;
-              do tree' <- dec_tree tree; do br <- as_list_of dec_pair_nn breaking;
-              let (s', r) := check force' isrepo' a tree' br s in
+  | SList [SStr "check"; guard; force; isrepo; st; args; tree; breaking] =>
+      or_bad (do guard' <- as_bool guard; do force' <- as_bool force; do isrepo' <- as_bool isrepo; do s <- dec_repo st;
+              do a <- dec_check args; do tree' <- dec_tree tree; do br <- as_list_of dec_pair_nn breaking;
+              let (s', r) := check guard' force' isrepo' a tree' br s in
               Some (SList [enc_repo s'; enc_result r]))
   | SList [SStr "steps"; st; gs] =>
       or_bad (do s <- dec_repo st; do gs' <- as_list_of dec_gstep gs; Some (SList (run_gsteps gs' s)))
@@ -600,5 +761,12 @@ Definition run_C20 (x : sexp) : sexp :=
       or_bad (do a <- as_bool is_abs; do ps <- as_list_of as_str parts; Some (SList (map SStr (location a ps))))
   | SList [SStr "checkout"; root; SStr tmpname; SStr normref] =>
       or_bad (do rt <- as_list_of as_str root; Some (SList (map SStr (checkout_parts rt tmpname normref))))
+  | SList [SStr "lines"; checkout; files; rel; lineno; endlineno] =>
+      (* the loader stores [files] of the checkout; the checkout is then removed (empty file system); what an object
+         of file [rel] spanning lineno..endlineno gives as its lines (0 0: the module itself) *)
+      or_bad (do co <- as_list_of as_str checkout; do fl <- as_list_of dec_file files; do rl <- as_list_of as_str rel;
+              do a <- as_nat lineno; do b <- as_nat endlineno;
+              let lc := visit_files co fl [] in
+              Some (SList (map SStr (if Nat.eqb a 0 then obj_lines [] lc (co ++ rl) else obj_source [] lc (co ++ rl) a b))))
   | _ => bad_input
   end.
